@@ -374,7 +374,17 @@ class FlowDomain(Domain):
     SINGLE = {'meta::header::Qcow2Header': 'header', 'meta::l1::L1Table': 'l1table',
               'meta::refcount::RefTable': 'reftable'}
 
+    def check_needflag(self, ip, fr, bi, tok, what):
+        nf = sorted(x[1] for x in tok if x[0] == 'NEEDFLAG')
+        for fn in nf:
+            self._viol('C18.1', 'C18.1:%s' % fn, fr, bi,
+                       'metadata dirtied in %s is not followed by setting need_flush before %s: need_flush_meta() can '
+                       'return false while the change exists only in RAM; path %s' % (fn, what, fr.chain_str()))
+        return frozenset(x for x in tok if x[0] != 'NEEDFLAG') if nf else tok
+
     def on_leaf_await(self, ip, fr, tok, tags, bi, term, fut):
+        if fut.kind in ('lock', 'trait_fn', 'ext') and any(x[0] == 'NEEDFLAG' for x in tok):
+            tok = self.check_needflag(ip, fr, bi, tok, 'the task suspends at %s' % fr.where(bi))
         if fut.kind == 'lock':
             cls = self.f.types[fut.cls]
             if cls.get('p') == 'std::collections::HashMap':
@@ -415,6 +425,10 @@ class FlowDomain(Domain):
             if cls == 'Z?':
                 self.undecided.append('%s: zero/punch request of unknown class (%s)' % (fr.where(bi), fr.chain_str()))
             tok = tok | {('U', cls, origin)}
+            if self.okt is None:
+                # fault model: a failed zero/punch must be replaced by a zero write
+                # of the same range before the wrapper reports success
+                return [(tok, 'ok()'), (tok | {('F', 'FALLOCFAIL')}, 'err')]
             return [(tok, self.okt)]
         if op == 'write_from':
             cls = self.write_class(fr)
@@ -423,12 +437,18 @@ class FlowDomain(Domain):
             self.check_write(ip, fr, bi, tok, cls, origin)
             ntok = set(tok)
             ntok.add(('U', cls, origin))
+            base_cls = cls.split(':')[0]
+            ntok.discard(('VICTIMS', base_cls))
             if cls == 'L2':
                 # an unmapping of this operation has now been handed to the backend
                 for x in list(ntok):
                     if x[0] == 'UNREF' and x[1] == 'L2' and x[2] == 'RAM':
                         ntok.discard(x)
                         ntok.add(('UNREF', 'L2', 'UNSYNCED'))
+            if self.okt is None:
+                ok_t = frozenset(ntok)
+                err_t = frozenset(ntok) | ({('HDRFAIL',)} if cls == 'HDR' else frozenset())
+                return [(ok_t, 'ok()'), (err_t, 'err')]
             return [(frozenset(ntok), self.okt)]
         return [(tok, None)]
 
@@ -537,6 +557,17 @@ class FlowDomain(Domain):
                     if c:
                         tcls = (c, at[a_i] if a_i < len(at) else None)
                         break
+            if tcls and tcls[0] in SLICE and len(term['args']) >= 4:
+                start = self.cl.classify(ip, fr, term['args'][2], 'const')
+                ln = self.cl.classify(ip, fr, term['args'][3], 'len')
+                whole = start == 'C:0' and ln == 'LEN:FULL'
+                self._ob('C05.4', fr, bi, whole, 'slice write of %s created in %s: start %s, length %s' % (
+                    tcls[0], short(fr.body.path), start, ln), site='slicewrite@%s' % short(fr.body.path))
+                if not whole:
+                    self._viol('C05.4', 'C05.4:%s:W(%s)' % (short(fr.body.path), tcls[0]), fr, bi,
+                               '%s writes only part of a cached %s slice (start %s, length %s) while the dirty flag '
+                               'describes the whole slice: other changes in the slice are marked clean without being '
+                               'written; path %s' % (short(fr.body.path), tcls[0], start, ln, fr.chain_str()))
             if tcls and tcls[0] in SLICE:
                 private = tcls[1] == 'LOCALTBL'
                 ok = private or ('F', 'NOTCONSULTED') not in tok
@@ -567,6 +598,28 @@ class FlowDomain(Domain):
             self._wrapc[key] = res
         return self._wrapc[key]
 
+    def _takes_victims(self, body):
+        """The slice flusher: takes a Vec of cache entries and polls table writes."""
+        key = body.path
+        if not hasattr(self, '_tvc'):
+            self._tvc = {}
+        if key not in self._tvc:
+            res = False
+            fnp = body.parent if body.is_coroutine else body.path
+            fb = self.f.body(fnp) if fnp else None
+            if fb is not None:
+                for i in range(1, fb.argc + 1):
+                    has_vec = self.f.type_contains(fb.locals[i], lambda x: x['k'] == 'adt' and x['p'] == 'std::vec::Vec')
+                    has_ent = self.f.type_contains(fb.locals[i], lambda x: x['k'] == 'adt' and x['p'].endswith('AsyncLruCacheEntryInner'))
+                    if has_vec and has_ent:
+                        res = True
+            if res:
+                res = any(t.get('fn', '').endswith('Future::poll') and any(
+                    fu.kind == 'async_fn' and self._writes_table_arg(fu.path) for fu in self.p.futs(t['a'][0], ()))
+                    for _bi, t in body.calls())
+            self._tvc[key] = res
+        return self._tvc[key]
+
     def _writes_table_arg(self, fn):
         """fn builds a write buffer from Table::as_ptr of one of its parameters."""
         if not hasattr(self, '_wtc'):
@@ -595,6 +648,21 @@ class FlowDomain(Domain):
 
     def on_await_begin(self, ip, fr, tok, tags, bi, term, futs):
         names = [fu.path for fu in futs if fu.kind == 'async_fn']
+        for fu in futs:
+            if fu.kind == 'async_fn' and self._writes_table_arg(fu.path):
+                for (sb, st_) in ip.creation_sites(fr.body, fu.path):
+                    for a in st_['args']:
+                        if a['k'] in ('copy', 'move'):
+                            c = self._table_of_operand(fr, a)
+                            if c:
+                                tok = frozenset(x for x in tok if x != ('F', 'CLEANPENDING', c)) | {('F', 'WROTE', c)}
+                                break
+            if fu.kind == 'async_fn' and ('F', 'FALLOCFAIL') in tok and self._wraps(fu.path, 'write_from'):
+                one = ip.creation_of_poll(fr, term, fu.path)
+                if one is not None:
+                    at = self.argtags(ip, fr, tok, tags, one[1], None)
+                    if len(at) > 2 and at[2] == 'ZERO':
+                        tok = tok - {('F', 'FALLOCFAIL')}
         # polling the zeroing futures completes them
         if ('F', 'ZMPENDING') in tok:
             if any(self._wraps(n, 'fallocate') for n in names) and not any(self._writes_table_arg(n) for n in names):
@@ -639,7 +707,11 @@ class FlowDomain(Domain):
             c = table_cls(self.f, self.p.subst(term['a'][0], fr.ctx))
             if c in TOP:
                 clean = frozenset(x for x in tok if x != ('RAM', c))
-                return [(tok, 'some()'), (clean, 'none')]
+                recv = self.cl.classify(ip, fr, term['args'][0], 'tbl')
+                if recv == 'LOCALTBL':
+                    # a table still private to this task is thrown away when the operation fails
+                    return [(tok, 'some()'), (clean, 'none')]
+                return [(tok | {('F', 'POPPED', c)}, 'some()'), (clean, 'none')]
             return [(tok, 'none')]
         if term.get('trait') == 'meta::table::Table' and term.get('name') == 'set_dirty':
             c = table_cls(self.f, self.p.subst(term['a'][0], fr.ctx))
@@ -666,6 +738,9 @@ class FlowDomain(Domain):
             ntok = tok | {('F', 'SWEPT:' + (c or '?'))}
             self._site('sweep', fr, bi, '%s %s' % (c, 'full' if full else 'range'))
             if full and c in SLICE:
+                if not hasattr(self, 'full_sweeps'):
+                    self.full_sweeps = set()
+                self.full_sweeps.add(c)
                 kind = 'RC' if c == 'RB' else 'L2'
                 # every dirty slice is in the returned list and will be written
                 # by the caller; an empty list means nothing was dirty
@@ -870,13 +945,49 @@ class FlowDomain(Domain):
             if val == 'F':
                 out = set(tok)
                 if ('F', 'WROTE', cls) not in tok:
+                    # cleared before (or without) the write: must be written on
+                    # every path, and set again if the write fails
                     out.add(('F', 'CLEANPENDING', cls))
-                out.add(('F', 'CLEANED', cls))
+                    out.add(('F', 'CLEANED', cls))
                 return frozenset(out)
             self.undecided.append('%s: dirty flag stored with a value the engine cannot decide' % fr.where(bi))
         return tok
 
+    def on_return(self, ip, fr, tok, tags, bi):
+        me = short(fr.body.path)
+        rt = head(tags.get(0))
+        for x in tok:
+            if x[0] != 'F' or len(x) < 2:
+                continue
+            if x[1] == 'CLEANPENDING':
+                self._ob('C02.4', fr, bi, False, '%s clears the dirty flag of a %s slice and returns without writing it' % (me, x[2]),
+                         site='clean@%s' % me)
+                self._viol('C02.4', 'C02.4:%s:%s' % (me, x[2]), fr, bi,
+                           '%s clears the dirty flag of a cached %s slice on a path on which the slice is not written '
+                           'by this function: the change is never flushed; path %s' % (me, x[2], fr.chain_str()))
+            elif x[1] == 'CLEANED' and rt in ('err', None) and self.okt is None:
+                self._viol('C17.2', 'C17.2:%s:slice' % me, fr, bi,
+                           '%s cleared the dirty flag of a cached %s slice and returns an error without setting it '
+                           'again: after a failed write the slice is clean in RAM, so a retried flush_meta() never '
+                           'writes it; path %s' % (me, x[2], fr.chain_str()))
+            elif x[1] == 'POPPED' and rt in ('err', None) and self.okt is None:
+                self._viol('C17.2', 'C17.2:%s:top' % me, fr, bi,
+                           '%s popped a dirty block index of the %s table and returns an error without queueing it '
+                           'again: a retried flush_meta() never writes that block; path %s' % (me, x[2], fr.chain_str()))
+            elif x[1] == 'FALLOCFAIL' and rt == 'ok':
+                self._viol('C17.3', 'C17.3:%s:fallback' % me, fr, bi,
+                           '%s returns Ok after a failed zero/punch request without writing zeros over the range; '
+                           'path %s' % (me, fr.chain_str()))
+        if ('HDRFAIL',) in tok and fr.body.is_coroutine and self._writes_header(fr.body.parent or ''):
+            self._viol('C17.3', 'C17.3:%s:rollback' % me, fr, bi,
+                       '%s returns after a failed header write without running the rollback of the in-RAM header; '
+                       'path %s' % (me, fr.chain_str()))
+            tok = tok - {('HDRFAIL',)}
+        return tok
+
     def on_leaf_call(self, ip, fr, tok, tags, bi, term, fn):
+        if ('HDRFAIL',) in tok and term.get('trait') in ('std::ops::FnOnce', 'std::ops::FnMut', 'std::ops::Fn'):
+            tok = tok - {('HDRFAIL',)}
         if fn is not None and fn.endswith('Atomic::<bool>::store') and len(term['args']) > 1:
             fld = self._stored_field(fr.body, term)
             if fld in ('need_flush', 'dirty'):
@@ -920,7 +1031,13 @@ class FlowDomain(Domain):
         return frozenset(x for x in tok if not (len(x) > 3 and x[0] == 'F' and x[1] == 'HOLDW' and x[3] == local))
 
     def on_enter(self, ip, fr, tok, cfr, bi, term):
+        if ('HDRFAIL',) in tok and cfr.body.kind == 'Closure' and not cfr.body.is_coroutine:
+            tok = tok - {('HDRFAIL',)}
         base = frozenset(x for x in tok if x[0] != 'F') | {('F', 'NOTCONSULTED')}
+        if any(x[0] == 'VICTIMS' for x in base) and self._takes_victims(cfr.body):
+            # the evicted entries are handed to the slice flusher
+            c = self.table_in_type(cfr.body.locals[2] if len(cfr.body.locals) > 2 else -1, cfr.ctx)
+            base = frozenset(x for x in base if not (x[0] == 'VICTIMS' and (c is None or x[1] == c)))
         base = base | {('OH', x[2], short(fr.body.path)) for x in tok if len(x) > 3 and x[0] == 'F' and x[1] == 'HOLDW'}
         # a release of clusters that were allocated in this critical section
         # (fragment retry, COW undo) is exempt from O4
@@ -999,3 +1116,101 @@ class FlowDomain(Domain):
                 break
         self._rac[fn] = res
         return res
+
+
+# --------------------------------------------------------------------------- loop/phase rule
+
+def natural_loops(body):
+    """[(header, set(blocks))] from back edges u->v with v dominating u."""
+    succ = body.succ()
+    pred = body.pred()
+    reach = body.reachable()
+    loops = {}
+    for u in reach:
+        for v in succ[u]:
+            if v in reach and body.dominates(v, u):
+                nodes = {v, u}
+                st = [u]
+                while st:
+                    x = st.pop()
+                    if x == v:
+                        continue
+                    for p in pred[x]:
+                        if p in reach and p not in nodes:
+                            nodes.add(p)
+                            st.append(p)
+                loops.setdefault(v, set()).update(nodes)
+    return sorted(loops.items())
+
+
+def phase_rule(f):
+    """In every loop of a function that (transitively) writes mapping tables,
+    the complete refcount sweep is performed inside the same loop and dominates
+    the mapping writes: refcount changes made while an earlier pass was waiting
+    for I/O are flushed before the mappings of the next pass.
+    Returns [(fn, loop header where, ok, detail)]."""
+    from .interp import POLL_NAMES
+    P = Program(f)
+    out = []
+    cache = {}
+
+    def effects(body, bi, t):
+        """(classes written, full sweeps) by the await in block bi."""
+        futs = P.futs(t['a'][0], ())
+        key = tuple(sorted((fu.kind, fu.path or '', tuple(fu.targs)) for fu in futs))
+        if key in cache:
+            return cache[key]
+        cls, sweeps = set(), set()
+        for fu in futs:
+            if fu.kind != 'async_fn':
+                continue
+            cos = f.coroutines_of(fu.path)
+            if not cos:
+                continue
+            d = FlowDomain(P)
+            ip = Interp(P, d)
+            cb = f.body(cos[0])
+            try:
+                ip.run(cb, ctx=P.bind(f.body(fu.path), fu.targs, ()), tok=d.initial() | {('RAM', 'RC'), ('RAM', 'L2')})
+            except AnalysisError:
+                continue
+            cls |= d.classes_seen
+            for (kind, where), info in d.sites.items():
+                if kind == 'sweep' and info['extra'].endswith('full'):
+                    sweeps.add(info['extra'].split()[0])
+            # sites keep only the first extra per location: ask the domain
+            sweeps |= getattr(d, 'full_sweeps', set())
+        cache[key] = (cls, sweeps)
+        return cache[key]
+
+    for b in f.body_list:
+        if not b.is_coroutine or '::tests::' in b.path:
+            continue
+        polls = [(bi, t) for bi, t in b.calls() if t.get('fn') in POLL_NAMES]
+        if not polls:
+            continue
+        loops = natural_loops(b)
+        if not loops:
+            continue
+        eff = None
+        for header, nodes in loops:
+            inloop = [(bi, t) for (bi, t) in polls if bi in nodes]
+            if not inloop:
+                continue
+            if eff is None:
+                eff = {bi: effects(b, bi, t) for (bi, t) in polls}
+            maps = [bi for (bi, t) in inloop if eff[bi][0] & {'L2', 'L1'}]
+            if not maps:
+                continue
+            rcs = [bi for (bi, t) in inloop if 'RB' in eff[bi][1]]
+            # the function must be one that is responsible for refcounts-before-mappings:
+            # it performs a full refcount sweep somewhere itself
+            anyrc = [bi for (bi, t) in polls if 'RB' in eff[bi][1]]
+            if not anyrc:
+                continue
+            for m in maps:
+                ok = any(b.dominates(r, m) for r in rcs)
+                out.append((short(b.path), b.where(header), ok,
+                            'mapping write at %s; full refcount sweeps in the loop at %s' % (
+                                b.where(m), [b.where(r) for r in rcs])))
+    return out
